@@ -671,9 +671,36 @@ struct RunSt<'a> {
 
 /// Runs one session (1 or 2 runs on the same graph value).  `choose` returns the next batch of
 /// actions at every quiescent point (and once before the first poll), or `None` to end.
+thread_local! {
+    static RT: tokio::runtime::Runtime = tokio::runtime::Builder::new_current_thread().build().unwrap();
+}
+
+/// Polls `f` once.  With `coop` the poll happens inside `Runtime::block_on`, i.e. under tokio's
+/// cooperative budget (as inside any tokio task): after 128 channel / lock operations tokio answers
+/// `Pending` and wakes the task.  The waker seen by the polled future is the harness's flag waker in
+/// both modes.
+fn poll_in<T>(coop: bool, f: impl FnOnce() -> T) -> T {
+    if coop {
+        let mut f = Some(f);
+        RT.with(|rt| {
+            rt.block_on(async move {
+                let r = std::future::poll_fn(move |_| Poll::Ready((f.take().unwrap())())).await;
+                // when the budget runs out tokio DEFERS the wake-up of the polled task to the runtime;
+                // yielding once lets the runtime deliver deferred wake-ups (to the harness's flag waker)
+                // before control returns, exactly as it would before re-polling a real task
+                tokio::task::yield_now().await;
+                r
+            })
+        })
+    } else {
+        f()
+    }
+}
+
 pub fn session<'g>(
     graph: &'g mut FnGraph<TestFn>,
     cfgs: &[RunCfg],
+    coop: bool,
     out: &mut Vec<String>,
     choose: &mut dyn FnMut(&View, usize) -> Option<Vec<Act>>,
 ) {
@@ -691,7 +718,7 @@ pub fn session<'g>(
             s2.ev(format!("ev {} handout {}", r, f));
         })));
     }
-    out.push(format!("session k={}", cfgs.len()));
+    out.push(format!("session k={} coop={}", cfgs.len(), coop as u8));
     for (i, c) in cfgs.iter().enumerate() {
         out.push(c.line(i));
     }
@@ -796,7 +823,7 @@ pub fn session<'g>(
                 Act::Poll { run } => {
                     if let Some(r) = runs.get_mut(*run) {
                         if let Root::Stream(_) = r.root {
-                            poll_stream(r, *run, &sh);
+                            poll_stream(r, *run, &sh, coop);
                         } else {
                             r.flag.0.store(true, Ordering::SeqCst);
                         }
@@ -848,7 +875,7 @@ pub fn session<'g>(
                         sh.cur_run.set(i);
                         let waker = Waker::from(r.flag.clone());
                         let mut cx = Context::from_waker(&waker);
-                        let res = catch_unwind(AssertUnwindSafe(|| fut.as_mut().poll(&mut cx)));
+                        let res = catch_unwind(AssertUnwindSafe(|| poll_in(coop, || fut.as_mut().poll(&mut cx))));
                         match res {
                             Ok(Poll::Ready(v)) => {
                                 r.finished = true;
@@ -907,13 +934,13 @@ pub fn session<'g>(
     out.push("endsession".to_string());
 }
 
-fn poll_stream<'a>(r: &mut RunSt<'a>, run: usize, sh: &Rc<Shared>) {
+fn poll_stream<'a>(r: &mut RunSt<'a>, run: usize, sh: &Rc<Shared>, coop: bool) {
     if let Root::Stream(st) = &mut r.root {
         sh.cur_run.set(run);
         r.flag.0.store(false, Ordering::SeqCst);
         let waker = Waker::from(r.flag.clone());
         let mut cx = Context::from_waker(&waker);
-        let res = catch_unwind(AssertUnwindSafe(|| st.as_mut().poll_next(&mut cx)));
+        let res = catch_unwind(AssertUnwindSafe(|| poll_in(coop, || st.as_mut().poll_next(&mut cx))));
         r.polls += 1;
         let woken = r.flag.0.load(Ordering::SeqCst) as u8;
         let text = match res {
